@@ -78,7 +78,9 @@ def check_junction_accumulate(ctx, ck, rule='R-SIB.junction-accumulate'):
                 why = 'end %d: %s += %s * self.current[%s] over conn[%d]' % (K + 1, acc, sv, pv, K)
             # initial value 0 before the loop
             if ok and acc:
-                ds = [d for d in fl.def_exprs(acc, fl.cfg.node_of(l)) if d[0] == 'assign']
+                body_ids = fl.cfg.loops[fl.cfg.node_of(l)][0]
+                ds = [d for d in fl.def_exprs(acc, fl.cfg.node_of(l)) if d[0] == 'assign'
+                      and d[2] not in body_ids]
                 zero = [d for d in ds if norm(d[1]) in ('0 + 0j', '0j', '0', '0.0', '0 + 0.0j')]
                 if not ds or len(zero) != len(ds):
                     ok, why = False, 'accumulator %s does not start at zero' % acc
